@@ -70,7 +70,11 @@ class C13Machine(RuleBasedStateMachine):
         for (m, name, ty) in tops[:3]:
             for _ in range(2):
                 self.probes.append((m.name, name, ty, vg.value(ty, m.name)))
-        self.REC.cls('histories')
+        # deferred histories take every reference (a fresh compile_string) only after the last step, so that
+        # nothing is compiled between two compile_dict calls of the history
+        self.deferred = data.draw(st.booleans())
+        self.pending = []
+        self.REC.cls('histories-deferred' if self.deferred else 'histories')
         self.REC.cases += 1
 
     def fresh_behaviour(self, codec, ne):
@@ -88,6 +92,14 @@ class C13Machine(RuleBasedStateMachine):
     def compile(self, codec, ne):
         self.history.append(('compile', codec, ne))
         o = outcome(asn1tools.compile_dict, self.d, codec, numeric_enums=ne)
+        if self.deferred:
+            if o[0] == 'ok':
+                self.compiled.append((codec, ne, o[1], None))
+            self.pending.append(('compile', codec, ne, o if o[0] != 'ok' else ('ok',), len(self.history)))
+            for i, (c_, n_, obj, _) in enumerate(self.compiled):
+                self.pending.append(('behaviour', c_, n_, behaviour(obj, self.probes, n_, self.spec, c_),
+                                     len(self.history), i))
+            return
         want = self.fresh_behaviour(codec, ne)
         self.REC.ev()
         if o[0] != 'ok':
@@ -150,13 +162,42 @@ class C13Machine(RuleBasedStateMachine):
 
     def report(self, kind, msg):
         case = {'spec': jsonio.spec_enc(self.spec), 'text': self.spec.texts(),
-                'history': [list(h) for h in self.history],
+                'history': [list(h) for h in self.history], 'deferred': bool(getattr(self, 'deferred', False)),
                 'probes': [[m, n, jsonio.enc(v)] for m, n, _, v in self.probes]}
         f = Failure(kind, msg, case, ['history-len-%d' % len(self.history)])
         self.REC.fail(f)
         self.spec = None      # stop this history
 
+    def settle(self):
+        """deferred histories: compare everything observed with fresh compiles, now that the history is over"""
+        for p in self.pending:
+            if self.spec is None:
+                return
+            self.REC.ev()
+            codec, ne = p[1], p[2]
+            want = self.fresh_behaviour(codec, ne)
+            hist = self.history[:p[4]]
+            if p[0] == 'compile':
+                if p[3][0] != 'ok' and want[0] == 'ok':
+                    self.report('compile-raises', 'compile_dict(%s, numeric_enums=%s) raised %s: %s after %r but a fresh '
+                                'compile_string succeeds' % (codec, ne, p[3][1], p[3][2], hist))
+                elif p[3][0] == 'ok' and want[0] != 'ok':
+                    self.report('compile-succeeds', 'compile_dict(%s, %s) succeeded but fresh compile_string raised %s'
+                                % (codec, ne, want[1]))
+            elif want[0] == 'ok' and p[3] != want[1]:
+                got, w = p[3], want[1]
+                j = next(k for k in range(len(w)) if k >= len(got) or got[k] != w[k])
+                self.report('behaviour-differs',
+                            'object #%d (%s, numeric_enums=%s) after history %r: probe outcome %d is %s, a fresh '
+                            'compile gives %s' % (p[5], codec, ne, hist, j, got[j][:300] if j < len(got) else None,
+                                                  w[j][:300]))
+        kinds = {(c, n) for c, n, _, _ in self.compiled}
+        if self.spec is not None and len(kinds) >= 2:
+            self.REC.nt(self.text, self.history, 'deferred')
+
     def teardown(self):
+        if self.spec is not None and getattr(self, 'deferred', False) and self.pending:
+            self.settle()
         if self.spec is not None and self.history and (len(self.REC.samples) < 2 or self.REC.evaluations % 20 == 0):
             self.REC.sample({'module_text': self.text, 'history': [list(h) for h in self.history],
                              'probes': len(self.probes)})
@@ -166,7 +207,8 @@ class C13(Check):
     id = 'C13'
     engine = 'hypothesis stateful'
     rule = ('histories = one parsed dict x sequences of up to 6 compile_dict(codec in 8, numeric_enums) calls '
-            'interleaved with eval(pformat(d)), deepcopy and pre_process_dict steps; after every compile each '
+            'interleaved with eval(pformat(d)), deepcopy and pre_process_dict steps (half of the histories take the fresh '
+            'references only after the last step, so that nothing else is compiled between the calls); after every compile each '
             'object compiled so far must behave like a fresh compile_string on a probe set (encode bytes or '
             'error text, decode value, decode of truncated bytes); evaluation = one object compared; '
             'non-trivial = history with >= 2 compiles of different (codec, numeric_enums); distinct = '
@@ -191,6 +233,8 @@ class C13(Check):
             probes.append((m, n, dict(spec.by_name[m].types)[n], jsonio.dec(v)))
         compiled = []
         hist = []
+        if case.get('deferred'):
+            return self.replay_deferred(case, rec, spec, text, d, probes)
         for h in case['history']:
             hist.append(tuple(h))
             if h[0] == 'compile':
@@ -215,6 +259,40 @@ class C13(Check):
             elif h[0] == 'pre_process_dict':
                 r = asn1tools.pre_process_dict(d)
                 d = r if isinstance(r, dict) else d
+
+    def replay_deferred(self, case, rec, spec, text, d, probes):
+        compiled = []
+        seen = []
+        for h in case['history']:
+            if h[0] == 'compile':
+                codec, ne = h[1], h[2]
+                o = outcome(asn1tools.compile_dict, d, codec, numeric_enums=ne)
+                seen.append(('compile', codec, ne, o[0]))
+                if o[0] == 'ok':
+                    compiled.append((codec, ne, o[1]))
+                for (c, n_, obj) in compiled:
+                    seen.append(('behaviour', c, n_, behaviour(obj, probes, n_, spec, c)))
+            elif h[0] == 'pformat-eval':
+                d = eval(pformat(d))
+            elif h[0] == 'deepcopy':
+                d = copy.deepcopy(d)
+            elif h[0] == 'pre_process_dict':
+                r = asn1tools.pre_process_dict(d)
+                d = r if isinstance(r, dict) else d
+        fresh = {}
+        for p in seen:
+            k = (p[1], p[2])
+            if k not in fresh:
+                fr = outcome(asn1tools.compile_string, text, p[1], numeric_enums=p[2])
+                fresh[k] = (fr[0], behaviour(fr[1], probes, p[2], spec, p[1]) if fr[0] == 'ok' else None)
+            if p[0] == 'compile':
+                if (p[3] == 'ok') != (fresh[k][0] == 'ok'):
+                    rec.fail(Failure('compile-outcome', 'compile_dict %s vs fresh %s' % (p[3], fresh[k][0]), case))
+                    return
+            elif fresh[k][0] == 'ok' and p[3] != fresh[k][1]:
+                rec.fail(Failure('behaviour-differs', 'object (%s,%s) differs from fresh compile (deferred history)'
+                                 % (p[1], p[2]), case))
+                return
 
 
 CHECK = C13()
